@@ -116,7 +116,7 @@ Proof. unfold sock_ok. intros (A & B & C & D & E & F) Es En El. rewrite Es, En.
   repeat split; auto; try apply C; auto. intro T. destruct (A T) as [H|[H|H]]; auto. Qed.
 
 (* ---- a thread executes one segment ---------------------------------------------------------------- *)
-Lemma client_sock_ok g o : lpc g = lpc g -> sk g o = client_sock -> o < nsk g -> sock_ok g o.
+Lemma client_sock_ok g o b : lpc g = lpc g -> sk g o = set_srv client_sock b -> o < nsk g -> sock_ok g o.
 Proof. intros _ E Ho. unfold sock_ok. rewrite E. cbn. repeat split; auto; try discriminate. lia. Qed.
 
 Lemma run_seg_inv g t o p orc :
@@ -250,8 +250,8 @@ Proof.
         (* PAcc3 needs llc.lock, which terminate() holds while it closes a socket *)
         unfold runnable_point in Hrun. rewrite (Gh ltac:(congruence) ltac:(congruence)) in Hrun.
         assert (needs_llc_lock p = true).
-        { clear - Ea. subst r. destruct s as [k x b i tb q0 n rb sb sl ak]. brk.
-          cbn [kd st bound intab tabled rq sq rbuf sbuf slots acks] in Ea.
+        { clear - Ea. subst r. destruct s as [k x b i tb q0 n rb sb sl ak sv]. brk.
+          cbn [kd st bound intab tabled rq sq rbuf sbuf slots acks srv] in Ea.
           destruct p; try reflexivity; exfalso; revert Ea; dm; cbn; discriminate. }
         rewrite H in Hrun. discriminate.
     + split.
@@ -261,7 +261,7 @@ Proof.
            ++ intros o' Ho' N'. rewrite upd_other by lia. apply upd_other; assumption.
            ++ rewrite upd_other by assumption. apply upd_same.
       * intro o'. destruct (Nat.eq_dec o' (nsk g)) as [->|N1].
-        -- apply client_sock_ok; cbn; auto. apply upd_same.
+        -- eapply client_sock_ok; cbn; auto. apply upd_same.
         -- destruct (Nat.eq_dec o' o) as [->|N].
            ++ apply Sself; cbn; auto. rewrite upd_other by assumption. apply upd_same.
            ++ unfold sock_ok. cbn. rewrite upd_other by assumption. rewrite upd_other by assumption.
@@ -328,6 +328,35 @@ Proof.
   - exact G'.
 Qed.
 
+Lemma close_inv_sq g o s1 n term' held' lpc' :
+  Inv g -> o < nsk g ->
+  kd s1 = kd (sk g o) -> tabled s1 = tabled (sk g o) -> intab s1 = false \/ intab s1 = intab (sk g o) ->
+  (tabled s1 = false -> bound s1 = false /\ intab s1 = false) ->
+  (forall o', o' <> o -> lpc g = LClosing o' -> lpc' = LClosing o') ->
+  glob_ok (mkG (var g) (upd (sk g) o (set_sq (tco_close s1) n)) (nsk g) (wake_all (thr g) o (close_conds (kd s1))) term' held' lpc') ->
+  Inv (mkG (var g) (upd (sk g) o (set_sq (tco_close s1) n)) (nsk g) (wake_all (thr g) o (close_conds (kd s1))) term' held' lpc').
+Proof.
+  intros HI Ho Ek Et Ei Hu Hl G'. pose proof HI as (G & T & SS).
+  apply (frame_inv g _ o HI); cbn.
+  - reflexivity.
+  - exact Ho.
+  - intros o' N. apply upd_other; assumption.
+  - rewrite upd_same. unfold evolves, tco_close, set_sq. cbn. rewrite Ek, Et. auto.
+  - intro t. left. apply wake_all_promoted.
+  - rewrite upd_same. intros Hne _ t c p Hp E.
+    assert (Eold : ts (thr g t) = Blocked o c p false).
+    { destruct (wake_all_promoted (thr g) o (close_conds (kd s1)) t) as [Eq|(o2 & c2 & p2 & E2 & Eq)]; rewrite Eq in E; [exact E|].
+      cbn in E. discriminate. }
+    pose proof (T t) as Tt. unfold thr_ok in Tt. rewrite Eold in Tt. destruct Tt as (_ & _ & _ & Hc & _).
+    rewrite <- Ek in Hc. rewrite (wake_all_hit _ _ _ _ _ _ Eold Hc) in E. discriminate.
+  - destruct (SS o) as (A & B & C & D & E & F). unfold sock_ok. cbn. rewrite upd_same. unfold tco_close, set_sq. cbn.
+    split; [intro; right; left; reflexivity|]. split; [intros; discriminate|].
+    split; [intro H; destruct (Hu H); auto|]. split; [auto|].
+    split; [intro H; rewrite Et; apply E; congruence|intro; lia].
+  - exact Hl.
+  - exact G'.
+Qed.
+
 Ltac inv_same g :=
   match goal with
   | HI : Inv g |- Inv g => exact HI
@@ -387,6 +416,8 @@ Proof.
     + intros o' X. destruct (Gc o' X) as (Gc1 & Gc2). split; [|exact Gc2].
       destruct (Nat.eq_dec o' o) as [->|N]; [rewrite upd_same; rewrite Ei; auto|rewrite upd_other by assumption; auto].
 Qed.
+
+Definition item_is_other (x : item) : bool := match x with IOTHER => true | _ => false end.
 
 (* ---- every label preserves the invariant ------------------------------------------------------------ *)
 Lemma fresh_thread_ok g o p md :
@@ -459,6 +490,7 @@ Proof.
            | |- Inv (match entry ?op with _ => _ end) =>
                destruct (entry op) as [[o' p']|] eqn:Een; [|exact HI];
                destruct (ref_ok g o' p') eqn:Er; [|exact HI];
+               destruct (negb (srv (sk g o'))); [|exact HI]; cbn [andb];
                destruct (entry_facts _ _ _ Een) as (Hp & H4);
                unfold with_thr; apply threads_inv; auto; intro t';
                (destruct (Nat.eq_dec t' t) as [->|N];
@@ -466,6 +498,7 @@ Proof.
            end).
     + (* ONew *) destruct k; try exact HI; apply alloc_inv; auto; discriminate.
     + (* OServer *) destruct (ref_ok g ls PAcc1) eqn:Er; [|exact HI].
+      destruct (negb (srv (sk g ls))); [|exact HI]. cbn [andb].
       unfold with_thr. apply threads_inv; auto. intro t'.
       destruct (Nat.eq_dec t' t) as [->|N]; [rewrite upd_same; right|rewrite upd_other by assumption; left; apply promoted_refl].
       apply fresh_thread_ok; auto; discriminate.
@@ -494,7 +527,7 @@ Proof.
     + exact HI.
   - (* LEnq *)
     destruct (is_run (lpc g) && intab (sk g o) && Nat.ltb o (nsk g)) eqn:Hc; [|exact HI].
-    apply andb_true_iff in Hc. destruct Hc as (Hc & Hlt). apply andb_true_iff in Hc. destruct Hc as (_ & Hi).
+    apply andb_true_iff in Hc. destruct Hc as (Hc & Hlt). apply andb_true_iff in Hc. destruct Hc as (Hr & Hi).
     apply Nat.ltb_lt in Hlt.
     destruct (SS o) as (A & B & C & D & E & F).
     destruct (kd (sk g o)) eqn:Ek; try exact HI.
@@ -502,7 +535,17 @@ Proof.
       apply data_inv; auto; cbn; auto using wake1_promoted_all. congruence.
     + destruct (Nat.ltb (length (rq (sk g o))) (rbuf (sk g o))); [|exact HI].
       apply data_inv; auto; cbn; auto using wake1_promoted_all. congruence.
-    + destruct (st (sk g o)) eqn:Est; destruct x; try exact HI;
+    + destruct (item_is_other x) eqn:Eoth.
+      { destruct x; try discriminate.
+        assert (Hclose : Inv (on_sock g o (set_sq (tco_close (sk g o)) 1) (wake_all (thr g) o (close_conds DLC)))).
+        { unfold on_sock. rewrite <- Ek. apply close_inv_sq; auto.
+          - intro X. destruct (C X) as (_ & Y & _). congruence.
+          - unfold glob_ok. cbn. split; [exact Gv|]. destruct (lpc g); try discriminate.
+            split; [discriminate|]. split; [|split; [|split]]; auto; try discriminate; try (intros; contradiction).
+            intro X. destruct (Nat.eq_dec 0 o) as [<-|N]; [rewrite upd_same; cbn; auto|rewrite upd_other by assumption; auto]. }
+        destruct (st (sk g o)) eqn:Est; try exact Hclose.
+        apply data_inv; auto; cbn; auto using promoted_refl; try (intros _ X; congruence); try (intros; apply promoted_refl). }
+      destruct (st (sk g o)) eqn:Est; destruct x; try discriminate; try exact HI;
         try (destruct (Nat.ltb (length (rq (sk g o))) (rbuf (sk g o))));
         try exact HI; apply data_inv; auto; cbn; auto using wake1_promoted_all, promoted_refl;
         try (intros _ X; congruence); try (left; exact Est).
@@ -511,9 +554,15 @@ Proof.
   - (* LDeq *)
     destruct (is_run (lpc g) && intab (sk g o) && Nat.ltb o (nsk g) && Nat.ltb 0 (sq (sk g o))) eqn:Hc; [|exact HI].
     apply andb_true_iff in Hc. destruct Hc as (Hc & _). apply andb_true_iff in Hc. destruct Hc as (Hc & Hlt).
-    apply andb_true_iff in Hc. destruct Hc as (_ & Hi). apply Nat.ltb_lt in Hlt.
+    apply andb_true_iff in Hc. destruct Hc as (Hr & Hi). apply Nat.ltb_lt in Hlt.
     destruct (SS o) as (A & B & C & D & E & F).
-    destruct (kd (sk g o)) eqn:Ek; destruct d; try (destruct (is_est (sk g o))); try (destruct (sstate_eqb (st (sk g o)) CLOSE_WAIT) eqn:Ecw);
+    assert (Hfr : kd (sk g o) = DLC -> Inv (on_sock g o (tco_close (sk g o)) (wake_all (thr g) o (close_conds DLC)))).
+    { intro Ek. unfold on_sock. rewrite <- Ek. apply close_inv; auto.
+      - intro X. destruct (C X) as (_ & Y & _). congruence.
+      - unfold glob_ok. cbn. split; [exact Gv|]. destruct (lpc g); try discriminate.
+        split; [discriminate|]. split; [|split; [|split]]; auto; try discriminate; try (intros; contradiction).
+        intro X. destruct (Nat.eq_dec 0 o) as [<-|N]; [rewrite upd_same; cbn; auto|rewrite upd_other by assumption; auto]. }
+    destruct (kd (sk g o)) eqn:Ek; destruct d; try (apply Hfr; reflexivity); try (destruct (is_est (sk g o))); try (destruct (sstate_eqb (st (sk g o)) CLOSE_WAIT) eqn:Ecw);
       apply data_inv; auto; cbn; auto using wake1_promoted_all, promoted_refl; try congruence;
       try (intros; apply promoted_refl).
     all: try (intros _ X; apply sstate_eqb_eq in Ecw; congruence).
@@ -657,8 +706,8 @@ Lemma done_stable g l : lpc g = LDone -> lpc (step g l) = LDone.
 Proof.
   intro H. destruct l; cbn [step]; try (rewrite H; cbn; exact H).
   - destruct (ts (thr g t)); auto. destruct (mode (thr g t)); auto.
-    destruct op; cbn; auto; try (destruct (ref_ok g _ _); auto).
-    destruct k; auto.
+    destruct op; cbn; auto;
+      repeat match goal with |- context [match ?x with _ => _ end] => destruct x end; cbn; auto.
   - destruct (ts (thr g t)) as [|o p|o c p [|]|r]; auto; destruct (runnable_point g p); auto;
       unfold run_seg; destruct (o_act _); auto.
   - destruct (ts (thr g t)); auto. unfold next_of, goto_call, with_thr.
@@ -725,7 +774,7 @@ Proof.
   - (* TIssue *)
     destruct (ts (thr g t')) eqn:E1; try (left; exact E). destruct (mode (thr g t')) eqn:E2; try (left; exact E).
     destruct op as [o|o e|o dw|o|o|o|o|o| |k|ls]; cbn in E;
-      try (destruct (ref_ok g _ _); [|left; exact E]; cbn in E;
+      try (destruct (ref_ok g _ _); [|left; exact E]; destruct (negb (srv (sk g _))); [|left; exact E]; cbn in E;
            destruct (Nat.eq_dec t t') as [->|N]; [rewrite upd_same in E; discriminate|rewrite upd_other in E by assumption; left; exact E]).
     destruct k; try (left; exact E); cbn in E;
       (destruct (Nat.eq_dec t t') as [->|N]; [rewrite upd_same in E; cbn in E; inversion E; right; reflexivity
@@ -1047,7 +1096,7 @@ Proof. vm_compute. reflexivity. Qed.
    woken by close() that finds a CC in the queue of the closed socket sets ESTABLISHED again; the socket
    has meanwhile left the access point table and is never shut down with the link. *)
 Example revive_needs_empty_queue :
-  let closed_with_cc := mkSock DLC SHUTDOWN true true true [ICC] 0 1 1 0 0 in
+  let closed_with_cc := mkSock DLC SHUTDOWN true true true [ICC] 0 1 1 0 0 false in
   st (o_sock (seg Fixed PConn2 closed_with_cc false true)) = ESTABLISHED /\
   o_act (seg Fixed PConn2 (set_rq closed_with_cc []) false true) = ARet (Err (LlcpError EPIPE)).
 Proof. vm_compute. split; reflexivity. Qed.
